@@ -125,10 +125,42 @@ def signal_family(ctx, so, n):
     return len(pairs)
 
 
+def c_callable_family(ctx, so, n):
+    """an interrupt while the device's write_bit is a C-implemented callable and the program writes on every lap of its
+    cycle: no callback ever runs bytecode, so only the engine's own signal polling can stop the run.  Each run is a
+    forked child with a hard limit; a run that does not stop is a violation."""
+    rng = ctx.rng
+    cases = []
+    for _ in range(n):
+        w, segs, tags, _n_out = ig.cycle_program(rng, rng.choice([16, 32, 64]), io_in_cycle=True)
+        for eng in ('featured', 'fast', 'native', 'native'):
+            native = eng == 'native'
+            cases.append({'w': w, 'segs': segs, 'input': '', 'version': 1, 'engine': eng, 'kind': 'c_callable',
+                          'tags': tags + ['signal', 'c-callable-device'], 'last_ops': rng.choice([3, 100, None]),
+                          'no_flat': native and rng.random() < 0.4, 'hard_timeout': 8.0})
+    chunks = [[c] for c in cases]
+    outs = fw.run_workers_parallel(ctx, 'faults', chunks, extra_env={'FJVERIF_FJCORE_SO': str(so)})
+    for (c,), (r,) in zip(chunks, outs):
+        ctx.count(('c-callable', c['w'], c['segs'], c['engine'], c['last_ops'], c['no_flat']), True)
+        oc = str(r.get('outcome'))
+        ctx.hist('c_callable_signal', f"{c['engine']}:{oc.split(':')[0] if oc != 'stats' else 'stopped'}")
+        if oc == 'stats' and r.get('cause') == 6 and (c['last_ops'] is None or r.get('last_ops_len')):
+            continue
+        if oc == 'inconclusive':
+            continue
+        kind = 'interrupt-lost' if oc == 'hang' else 'wrong-outcome'
+        ctx.violation({'kind': kind, 'engine': c['engine'], 'device_exc': 'signal-c-callable'},
+                      f"an interrupt signal during a run whose device callbacks are C-implemented ({c['engine']} engine, w={c['w']}): "
+                      f"{'the run did not stop within ' + str(r.get('waited')) + ' s' if oc == 'hang' else 'observed ' + str(r)}; "
+                      f"required a keyboard-interrupt termination with its statistics", {'case': c, 'observed': r})
+    return len(cases)
+
+
 def run(ctx):
     fw.static_proofs(ctx, ['Properties/C18.v', 'Properties/C18_engines.v'])
     so = fw.build_fjcore(ctx)
     n_sig = signal_family(ctx, so, ctx.n(6, 60))
+    n_sig += c_callable_family(ctx, so, ctx.n(2, 12))
     progs = io_programs(ctx, ctx.n(60, 1500), so)
     cases = []
     for c, calls in progs:
